@@ -621,18 +621,18 @@ func (c *Chain) Replica() (*Chain, error) {
 // ---------------------------------------------------------------------------------------------------
 // observers
 
-func (c *Chain) App() *app.LinkApplication             { return c.app }
-func (c *Chain) Mempool() *mempl.Mempool               { return c.mempool }
-func (c *Chain) BlockStore() *bc.BlockStore            { return c.blockStore }
-func (c *Chain) UtxoStore() *utxo.UtxoStore            { return c.utxoStore }
-func (c *Chain) TxService() *txmgr.Service             { return c.txService }
+func (c *Chain) App() *app.LinkApplication              { return c.app }
+func (c *Chain) Mempool() *mempl.Mempool                { return c.mempool }
+func (c *Chain) BlockStore() *bc.BlockStore             { return c.blockStore }
+func (c *Chain) UtxoStore() *utxo.UtxoStore             { return c.utxoStore }
+func (c *Chain) TxService() *txmgr.Service              { return c.txService }
 func (c *Chain) BalanceRecords() *bc.BalanceRecordStore { return c.balanceRecord }
-func (c *Chain) BlockExecutor() *cs.BlockExecutor      { return c.blockExec }
-func (c *Chain) EvidencePool() *evidence.EvidencePool  { return c.evPool }
-func (c *Chain) EventBus() *types.EventBus             { return c.eventBus }
-func (c *Chain) Status() cs.NewStatus                  { return c.status }
-func (c *Chain) ChainID() string                       { return c.status.ChainID }
-func (c *Chain) IsTrie() bool                          { return c.opts.IsTrie }
+func (c *Chain) BlockExecutor() *cs.BlockExecutor       { return c.blockExec }
+func (c *Chain) EvidencePool() *evidence.EvidencePool   { return c.evPool }
+func (c *Chain) EventBus() *types.EventBus              { return c.eventBus }
+func (c *Chain) Status() cs.NewStatus                   { return c.status }
+func (c *Chain) ChainID() string                        { return c.status.ChainID }
+func (c *Chain) IsTrie() bool                           { return c.opts.IsTrie }
 
 // Height of the block store (= application height).
 func (c *Chain) Height() uint64 { return c.blockStore.Height() }
@@ -679,8 +679,10 @@ func (c *Chain) Nonce(a common.Address) uint64 { return c.app.VerifStoreState().
 func (c *Chain) Code(a common.Address) []byte  { return c.app.VerifStoreState().GetCode(a) }
 
 // PendingNonce / PendingBalance read the state the mempool checks against (app.checkTxState).
-func (c *Chain) PendingNonce(a common.Address) uint64    { return c.app.GetNonce(a) }
-func (c *Chain) PendingBalance(a common.Address) *big.Int { return new(big.Int).Set(c.app.GetBalance(a)) }
+func (c *Chain) PendingNonce(a common.Address) uint64 { return c.app.GetNonce(a) }
+func (c *Chain) PendingBalance(a common.Address) *big.Int {
+	return new(big.Int).Set(c.app.GetBalance(a))
+}
 
 // KeyImageSpent asks the UTXO store.
 func (c *Chain) KeyImageSpent(ki lktypes.Key) bool { return c.utxoStore.HaveTxKeyimgAsSpent(&ki) }
